@@ -21,7 +21,7 @@ def current_vloop():
 
 
 class Job:
-    __slots__ = ("kind", "fn", "cf", "afut", "seq", "enabled", "label", "conn")
+    __slots__ = ("kind", "fn", "cf", "afut", "seq", "enabled", "label", "conn", "actor")
 
     def __init__(self, kind, fn, cf=None, afut=None, enabled=None, label="", conn=None):
         self.kind = kind
@@ -32,6 +32,7 @@ class Job:
         self.label = label
         self.conn = conn
         self.seq = 0
+        self.actor = None
 
     def is_enabled(self):
         return True if self.enabled is None else bool(self.enabled())
@@ -47,6 +48,10 @@ class VLoop(asyncio.BaseEventLoop):
         self.set_exception_handler(self._on_exc)
         self.batch_remaining = 0
         self.steps = 0
+        import weakref
+
+        self._actors = weakref.WeakKeyDictionary()  # task -> serial number (ids of dead tasks may be reused by CPython)
+        self._actors_gone = 0
 
     # ---- BaseEventLoop overrides ------------------------------------------------------------
     def time(self):
@@ -72,6 +77,19 @@ class VLoop(asyncio.BaseEventLoop):
     def _add(self, job):
         self._jobseq += 1
         job.seq = self._jobseq
+        # the asyncio task on whose behalf the other thread works (the "thread" of preemption bounding)
+        try:
+            t = asyncio.current_task(self)
+        except RuntimeError:
+            t = None
+        if t is None:
+            job.actor = None
+        else:
+            a = self._actors.get(t)
+            if a is None:
+                self._actors_gone += 1
+                a = self._actors[t] = self._actors_gone
+            job.actor = a
         self.jobs.append(job)
         return job
 
